@@ -204,27 +204,27 @@ type VerifPendingSnap struct {
 
 // VerifSnapshot is the loop-owned agent state, read inside the loop.
 type VerifSnapshot struct {
-	Closed             bool
-	Controlling        bool
-	ConnectionState    ConnectionState
-	GatheringState     GatheringState
-	LocalUfrag         string
-	LocalPwd           string
-	RemoteUfrag        string
-	RemotePwd          string
-	Locals, Remotes    []Candidate
-	Pairs              []VerifPairSnap
-	NextPairID         uint64
+	Closed              bool
+	Controlling         bool
+	ConnectionState     ConnectionState
+	GatheringState      GatheringState
+	LocalUfrag          string
+	LocalPwd            string
+	RemoteUfrag         string
+	RemotePwd           string
+	Locals, Remotes     []Candidate
+	Pairs               []VerifPairSnap
+	NextPairID          uint64
 	PairsByIDConsistent bool
-	Pending            []VerifPendingSnap
-	SelectedID         uint64
-	HasSelected        bool
+	Pending             []VerifPendingSnap
+	SelectedID          uint64
+	HasSelected         bool
 	SelectedInChecklist bool
-	NominatedID        uint64
-	HasNominated       bool
-	HasLastNomination  bool
-	LastNomination     uint32
-	Now                time.Time
+	NominatedID         uint64
+	HasNominated        bool
+	HasLastNomination   bool
+	LastNomination      uint32
+	Now                 time.Time
 }
 
 func verifPairSnap(p *CandidatePair) VerifPairSnap {
